@@ -347,6 +347,16 @@ def decode_input(model, kind, payload):
         import struct
         bv = model.eval(z3.fpToIEEEBV(v), model_completion=True).as_long()
         return struct.unpack("<d", struct.pack("<Q", bv))[0]
+    if kind == "idset":
+        fn, probes = payload
+        out = []
+        for cs in probes:
+            vals = [c if isinstance(c, int) else ev(c).as_long() for c in cs]
+            if z3.is_true(ev(fn(*[z3.IntVal(v) for v in vals]))):
+                sid = "".join(chr(v) if 0 <= v <= 0x10FFFF else "?" for v in vals)
+                if sid not in out:
+                    out.append(sid)
+        return out
     if kind == "const":
         return payload
     if kind == "choice":
